@@ -381,6 +381,9 @@ def kill_tree(pid):
             pass
 
 
+MEM_LIMIT = 6 << 30      # address space of every shell the drivers start (not the sanitizer build, which reserves terabytes)
+
+
 def run_cicada(sb, args, stdin=None, timeout=20.0, env_extra=None, watch=None, cwd=None,
                budget=20000, binary=None, env_override=None, during=None):
     """Run cicada with args (list).  stdin: None => /dev/null, bytes => pipe.
@@ -393,6 +396,13 @@ def run_cicada(sb, args, stdin=None, timeout=20.0, env_extra=None, watch=None, c
                          stdout=subprocess.PIPE, stderr=subprocess.PIPE, close_fds=True,
                          start_new_session=True)
     r.pid = p.pid
+    if "asan" not in os.path.basename(os.path.dirname(binary or sb.cicada)) and "asan" not in (binary or sb.cicada):
+        # a runaway allocation (a range of 2^31 words ...) must end as a crash of that shell, not take the machine down
+        try:
+            import resource
+            resource.prlimit(p.pid, resource.RLIMIT_AS, (MEM_LIMIT, MEM_LIMIT))
+        except (OSError, ValueError, AttributeError):
+            pass
     try:
         r.stdout_ino = os.fstat(p.stdout.fileno()).st_ino
         r.stderr_ino = os.fstat(p.stderr.fileno()).st_ino
@@ -660,3 +670,46 @@ class FileProc:
         data = self.f.read()
         self.f.close()
         return data, b""
+
+
+# ------------------------------------------------- the escape family (open findings of C01 / C20): does it apply at all?
+
+def unusable_pattern(name):
+    """texts the wildcard matcher rejects as a pattern: `**` that is not a whole path component, three stars in a row, a `[`
+    with no `]` after it (the wildcard pass leaves such a word alone)"""
+    if "***" in name or ("**" in name and name != "**"):
+        return True
+    i = name.find("[")
+    while i >= 0:
+        if "]" not in name[i + 1:]:
+            return True
+        i = name.find("[", i + 1)
+    return False
+
+
+def esc_effects(t, entries):
+    """Backslash-escaped characters keep no quote tag in cicada's tokens (only a word that *starts* with an escaped $ or |,
+    and escaped < >, get one), so the later passes act on them.  Which of those passes would actually change the unescaped
+    text `t` (entries: the names in the directory the wildcard pass looks at; None = unknown, assume it matches)?  A failure
+    of a text none of them would change is not that finding."""
+    import fnmatch
+    import re
+    out = set()
+    if t[:1] in ("$", "|") or "<" in t or ">" in t:
+        return out                      # the word carries a tag: no pass touches it
+    if t.count("`") >= 2:
+        out.add("backquote")
+    if re.search(r"\$\{([A-Za-z0-9_]+|\$|\?)\}|\$([A-Za-z0-9_]+|\$|\?)", t) or re.search(r"\$\([^)]+\)", t):
+        out.add("dollar")
+    if t.startswith("~"):
+        out.add("tilde")
+    if re.search(r"\{[^ \"']*,[^ \"']*\}", t):
+        out.add("brace")
+    if "*" in t and not t.lstrip().startswith(("'", '"')) and not unusable_pattern(t):
+        if entries is None or "/" in t:
+            out.add("star")
+        else:
+            m = [e for e in entries if fnmatch.fnmatchcase(e, t) and (not e.startswith(".") or t.startswith("."))]
+            if m and m != [t]:
+                out.add("star")
+    return out
